@@ -455,7 +455,19 @@ theorem remapKind_leaf_total (M n : Nat) (k : ItemKind) (hk : LeafK k) (t : Tree
       obtain ⟨x, hx, _⟩ := Option.map_eq_some_iff.1 hu
       obtain ⟨v', s', h1, h2, h3⟩ := vt_total hW hs M' n' v x s hI hx (by omega)
       exact ⟨.value v', s', by simp only [remapKind, run_bind, h1, run_pure], h2, h3.toNKL⟩
-    | type _ => cases hk
+    | type ty =>
+      cases ty with
+      | func f =>
+        simp only [Types.unfoldKind] at hu
+        obtain ⟨x, hx, _⟩ := Option.map_eq_some_iff.1 hu
+        obtain ⟨f', s', h1, h2, h3⟩ := remapFunc_total hW hs M' n' f x s hI hx (by omega)
+        exact ⟨.type (.func f'), s', by simp only [remapKind, run_bind, h1, run_pure], h2, h3⟩
+      | value v =>
+        simp only [Types.unfoldKind] at hu
+        obtain ⟨x, hx, _⟩ := Option.map_eq_some_iff.1 hu
+        obtain ⟨v', s', h1, h2, h3⟩ := vt_total hW hs M' n' v x s hI hx (by omega)
+        exact ⟨.type (.value v'), s', by simp only [remapKind, run_bind, h1, run_pure], h2, h3.toNKL⟩
+      | _ => cases hk
     | «instance» _ => cases hk
     | component _ => cases hk
     | module _ => cases hk
